@@ -1270,3 +1270,49 @@ func ruleDecodedLoop(c *Ctx) {
 	}
 	c.Floor("loops bounded by a decoded count", n, 3)
 }
+
+// ---------------------------------------------------------------------------
+// limit-used (C17): a constant that a wire package declares as a maximum (Max*/max*) and that no non-test code of the
+// module mentions is a limit nobody enforces: the format documents a bound, the decoder reads with the reader's
+// default (16 MB for byte strings, 16M elements for arrays).
+var limitUsedTabled = map[string]string{}
+
+func ruleLimitUsed(c *Ctx, pkgs ...string) {
+	want := map[string]bool{}
+	for _, p := range pkgs {
+		want[p] = true
+	}
+	used := map[types.Object]bool{}
+	for _, pk := range c.P.Pkgs {
+		for _, o := range pk.TypesInfo.Uses {
+			if cn, ok := o.(*types.Const); ok {
+				used[cn] = true
+			}
+		}
+	}
+	n := 0
+	for _, pk := range c.P.Pkgs {
+		rel := pkgRel(pk.Types)
+		if !want[rel] {
+			continue
+		}
+		sc := pk.Types.Scope()
+		for _, name := range sc.Names() {
+			cn, ok := sc.Lookup(name).(*types.Const)
+			if !ok || !(strings.HasPrefix(name, "Max") || strings.HasPrefix(name, "max")) {
+				continue
+			}
+			n++
+			key := "limit-used." + rel + "." + name
+			switch {
+			case used[cn]:
+				c.OK(key, c.P.Pos(cn.Pos()), "the declared maximum is used by the module's code")
+			case limitUsedTabled[rel+"."+name] != "":
+				c.OK(key, c.P.Pos(cn.Pos()), "tabled: "+limitUsedTabled[rel+"."+name])
+			default:
+				c.Fail(key, c.P.Pos(cn.Pos()), fmt.Sprintf("%s.%s is declared as a maximum of the wire format and no code of the module mentions it: the bound is not enforced by any decoder", rel, name))
+			}
+		}
+	}
+	c.Floor("declared maxima in wire packages", n, 20)
+}
